@@ -472,3 +472,4 @@ def stub_call(eng, st, site, func, target, args, dty):
 
 from stubs2 import *   # noqa: E402,F401  (registers the std models)
 import stubs3           # noqa: E402,F401  (Option/Result combinators)
+import stubs4           # noqa: E402,F401  (round-4 additions)
